@@ -379,6 +379,10 @@ func c13Check(env *core.Env, cc core.Case) core.Verdict {
 		return core.Incon("cannot write tree: %v", err)
 	}
 	want := c13Model(c.Rule, c.Content)
+	if len(c.Content)%11 == 5 && !c.Link {
+		// a write-protected test file: --check still fails exactly when a rewrite would change it
+		_ = os.Chmod(filepath.Join(root, rel), 0o444)
+	}
 	args := func(check bool) []string {
 		a := []string{}
 		if c.GitHub {
